@@ -132,7 +132,11 @@ def rt_ite(c, ta, tb):
         a = ta()
     with guard(z3.Not(c.e)):
         b = tb()
-    return rt_merge(c, a, b)
+    try:
+        return rt_merge(c, a, b)
+    except EngineError:
+        # values that cannot be joined (e.g. two different strings): decide the condition by forking
+        return a if bool(c) else b
 
 
 def rt_range(*a):
